@@ -322,6 +322,7 @@ class SpecGen:
             return False
         body.append(S.Length(ln, wire, offset, optional))
         ctx.scope[ln] = {"kind": "length", "type": wire, "optional": optional}
+        ctx.scope[name] = {"kind": "reserved", "optional": optional}
         if optional:
             ctx.opt = True
         if not optional and self.chance(0.12):
